@@ -80,12 +80,17 @@ type c14Signer struct {
 	lndclient.SignerClient
 	keys *c14Keys
 	log  map[string]string
+
+	// last message / key locator handed to SignMessage (C12)
+	lastMsg []byte
+	lastLoc keychain.KeyLocator
 }
 
 func (s *c14Signer) SignMessage(_ context.Context, msg []byte,
 	loc keychain.KeyLocator, _ ...lndclient.SignMessageOption) ([]byte, error) {
 
 	k := int(loc.Index)
+	s.lastMsg, s.lastLoc = append([]byte(nil), msg...), loc
 	if k < 1 || k >= len(s.keys.priv) {
 		return nil, fmt.Errorf("no such key")
 	}
